@@ -146,6 +146,7 @@ pub fn run(tier: &str, seed: u64, replay: Option<String>) -> i32 {
     let mut n_multi = 0usize;
     let mut n_hist = 0usize;
     let mut n_nonfinite = 0usize;
+    let mut n_unusual = 0usize;
     for b in &bases {
         let v = match crate::panics::contain(|| crate::engines::model::base_value(b)) {
             Ok(v) => v,
@@ -268,6 +269,40 @@ pub fn run(tier: &str, seed: u64, replay: Option<String>) -> i32 {
                 n_hist += 1;
             }
         }
+        // closed but unusual models (whole-collection editor operations, uniform rescalings,
+        // duplicated elements): the checker must still say nothing / exactly the broken links
+        {
+            let unusual: Vec<Vec<MEdit>> = vec![
+                vec![MEdit::ScaleAll { gptr: "/windows/*/geometry/width".into(), factor: 10.0 }],
+                vec![MEdit::ScaleAll { gptr: "/windows/*/geometry/height".into(), factor: 10.0 }, MEdit::ScaleAll { gptr: "/windows/*/geometry/width".into(), factor: 3.0 }],
+                vec![MEdit::ScaleAll { gptr: "/walls/*/geometry/polygon/*/*".into(), factor: 0.02 }],
+                vec![MEdit::ScaleAll { gptr: "/spaces/*/height".into(), factor: 0.05 }],
+                vec![MEdit::MoveBuildingZ { dz: -4.0, walls_to_ground: true }],
+                vec![MEdit::SetAll { ptr: "/spaces".into(), key: "kind".into(), value: json!("UNINHABITED"), only_if: None }],
+                vec![MEdit::SetAll { ptr: "/spaces".into(), key: "inside_tenv".into(), value: json!(false), only_if: None }],
+                vec![MEdit::SetAll { ptr: "/walls".into(), key: "bounds".into(), value: json!("ADIABATIC"), only_if: None }],
+                vec![MEdit::SetAll { ptr: "/thermal_bridges".into(), key: "l".into(), value: json!(0.0), only_if: None }],
+                vec![MEdit::ArrayEmptied { ptr: "/shades".into() }, MEdit::ArrayEmptied { ptr: "/thermal_bridges".into() }],
+                vec![MEdit::ArrayDuplicated { ptr: "/windows".into() }],
+                vec![MEdit::ArrayDuplicated { ptr: "/spaces".into() }],
+                vec![MEdit::ArrayDuplicated { ptr: "/cons/wallcons".into() }],
+                vec![MEdit::RenameAllNames],
+                vec![MEdit::SetAll { ptr: "/walls".into(), key: "name".into(), value: json!("mismo nombre"), only_if: None }],
+            ];
+            for (k, es) in unusual.iter().enumerate() {
+                let mut es = es.clone();
+                // half of them together with one broken link
+                if k % 2 == 1 && !links.is_empty() {
+                    es.push(MEdit::IdRedirected { ptr: rng.pick(&links).clone(), to: "fresh".into() });
+                }
+                let st = json!({"base": b, "edits": es, "what": "unusual", "require_all": false});
+                if small || k % 3 == 0 {
+                    ind_steps.push(st.clone());
+                }
+                steps.push(st);
+                n_unusual += 1;
+            }
+        }
         // a number of the model is not finite (1e39 loads as +inf in an f32 field), alone and
         // together with a broken link of the same or another element: the warnings that come
         // with the indicators must still be the checker's
@@ -386,6 +421,7 @@ pub fn run(tier: &str, seed: u64, replay: Option<String>) -> i32 {
     extra.insert("multi_fault_sets".into(), json!(n_multi));
     extra.insert("edit_histories".into(), json!(n_hist));
     extra.insert("nonfinite_number_steps".into(), json!(n_nonfinite));
+    extra.insert("closed_but_unusual_model_steps".into(), json!(n_unusual));
     extra.insert("steps_comparing_indicator_warnings".into(), json!(ind_steps.len()));
     extra.insert("fault_kinds_fired".into(), json!(fired));
     extra.insert("step_classes".into(), json!(classes));
